@@ -118,6 +118,7 @@ def gen_cloud(rng, k):
     spec['kind'] = 'cloud'
     spec['cls'] = cls
     spec['extra'] = dict(type='clouds', clouds_pressure=p0)
+    spec['extra2'] = dict(type='clouds', clouds_pressure=float(P[int(rng.integers(0, len(P)))] * rng.choice([1.0, 0.7, 1.6])))
     spec['extra_first'] = bool(rng.random() < 0.5)
     return spec
 
@@ -177,6 +178,7 @@ def eval_cloud(ctx, spec):
              sample=dict(kind='cloud', cls=spec['cls'], p0=p0, nlayers=n, cloudy=int(cloudy.sum()), depth=depth[:2]),
              bucket='cloud:' + spec['cls'])
     ctx.bucket('cloud-layers:' + ('none' if not cloudy.any() else 'all' if cloudy.all() else 'some'))
+    reuse_check(ctx, spec, m)
 
 
 # ----------------------------------------------------------------------------------------- hazes
@@ -194,7 +196,37 @@ def gen_haze(rng, k, kind):
                              lee_mie_q=float(rng.uniform(0.1, 60)), lee_mie_mix_ratio=float(10 ** rng.uniform(-20, -6)),
                              lee_mie_bottomP=bottom, lee_mie_topP=top)
     spec['extra_first'] = bool(rng.random() < 0.5)
+    cls2, bottom2, top2 = bound_class(rng, lev, P, kind)
+    e2 = dict(spec['extra'])
+    if kind == 'flat':
+        e2.update(flat_bottomP=bottom2, flat_topP=top2, flat_mix_ratio=e2['flat_mix_ratio'] * float(rng.choice([1.0, 3.0])))
+    else:
+        e2.update(lee_mie_bottomP=bottom2, lee_mie_topP=top2, lee_mie_radius=e2['lee_mie_radius'] * float(rng.choice([1.0, 0.5])))
+    spec['extra2'] = e2
     return spec
+
+
+def reuse_check(ctx, spec, m):
+    """the same model object after `model[name] = value` must give what a freshly built model gives"""
+    e2 = spec.get('extra2')
+    if e2 is None:
+        return
+    try:
+        for name, v in e2.items():
+            if name != 'type':
+                m[name] = v
+        wn, depth, trans, _ = m.model()
+        cname = {'clouds': 'SimpleCloudsContribution', 'flatmie': 'FlatMieContribution', 'leemie': 'LeeMieContribution'}[e2['type']]
+        sig = np.array(find(m, cname).sigma_xsec, float)
+        m2, wn2, depth2, trans2, p2, c2 = T.run_real(with_contribs(spec, e2))
+        sig2 = np.array(find(m2, cname).sigma_xsec, float)
+    except Exception as e:
+        ctx.violation('stale-state:raises:' + type(e).__name__, 'reused model raised %r after parameter setters' % (e,), spec)
+        return
+    ctx.bucket('reuse-check:' + spec['kind'])
+    if not (np.array_equal(sig, sig2) and np.array_equal(np.asarray(trans), trans2) and np.array_equal(np.asarray(depth), depth2)):
+        ctx.violation('stale-state:' + spec['kind'], 'a model reused after model[name] = value differs from a freshly built one',
+                      spec, dict(params=e2, reused=np.asarray(depth), fresh=depth2, sigma_reused=sig[:, 0], sigma_fresh=sig2[:, 0]))
 
 
 def swapped(extra):
@@ -310,6 +342,7 @@ def eval_haze(ctx, spec):
              sample=dict(sm, sigma=sig[:4, 0], model=(msig[:4] if kind == 'flat' else msig[:4, 0])),
              bucket=kind + ':' + spec['cls'])
     ctx.bucket(kind + '-layers:' + ('none' if not affected.any() else 'all' if affected.all() else 'some'))
+    reuse_check(ctx, spec, m)
 
 
 # ----------------------------------------------------------------------------------------- driver
